@@ -338,6 +338,13 @@ def oracle(case):
         return [{"what": f"{case['label']}: {obs['outcome']}: {obs.get('msg')}", "key": {"class": "panic"}}]
     if obs["outcome"] != "ok":
         _stats["not_converted"] += 1
+        used = {mn for l in (case.get("description") or {}).get("layers", []) for mn in l.get("materials", [])}
+        if case.get("description") and not any("  " in mn for mn in used):
+            # printed from a well-formed description of a building: it has to convert (a material name with two blanks in a row is
+            # squeezed by the parser and no longer matches the layers that name it: such a project is rejected by the unchanged code, a
+            # behaviour recorded in DESIGN 10.3, not counted here)
+            return [{"what": f"{case['label']}: a project printed from a well-formed description does not convert: {obs['outcome']}: {str(obs.get('msg'))[:120]}",
+                     "key": {"class": "generated-project-rejected"}}]
         return []
     v = check_model(case, obs, case["label"])
     if case.get("description"):
